@@ -229,7 +229,7 @@ func (w *World) RemoveRun() error {
 	// selected first, at odd heights the selection is left as the history made it - typically
 	// the wallet being removed, i.e. the survivor is NOT the selected one)
 	selected := w.I.W.CurrentWallet()
-	if A := w.Wallets["A"]; A != nil && w.N.Height()%2 == 0 && (selected == "" || selected == w.Wallets["B"].ID) {
+	if A := w.Wallets["A"]; A != nil && !w.KeepSelection && w.N.Height()%2 == 0 && (selected == "" || selected == w.Wallets["B"].ID) {
 		if _, uerr := w.I.W.UseWallet(A.ID); uerr == nil {
 			selected = A.ID
 		}
